@@ -365,14 +365,14 @@ func checkInspectGate(c *Ctx, r *Report, fn *ssa.Function, rule string) {
 				okAll = false
 				continue
 			}
-			// reader argument: io.LimitReader(dr, ...)
-			lr, _ := callOf(canon(sc.Call.Args[0]))
-			if lr == nil || !funcIs(calleeFunc(lr.Common()), "io", "", "LimitReader") {
+			// reader argument: io.LimitReader(dr, ...) or &io.LimitedReader{R: dr, N: ...}
+			under, okLR := limitedReaderSource(sc.Call.Args[0])
+			if !okLR {
 				okAll = false
 				continue
 			}
 			// same underlying reader as the CID read
-			if !sameValue(lr.Call.Args[0], cfr[0].Common().Args[0]) {
+			if !sameValue(stripIface(under), stripIface(cfr[0].Common().Args[0])) {
 				okAll = false
 			}
 			n++
@@ -413,6 +413,35 @@ func checkInspectGate(c *Ctx, r *Report, fn *ssa.Function, rule string) {
 		}
 	}
 	r.Hold(key, pos, "per-block accounting is behind gotCid.Equals(c) (or validateBlockHash == false)")
+}
+
+// limitedReaderSource returns the reader wrapped by io.LimitReader(x, n) or by a
+// local &io.LimitedReader{R: x, N: n}.
+func limitedReaderSource(v ssa.Value) (ssa.Value, bool) {
+	v = canon(stripIface(v))
+	if lr, _ := callOf(v); lr != nil && funcIs(calleeFunc(lr.Common()), "io", "", "LimitReader") {
+		return lr.Call.Args[0], true
+	}
+	if al, ok := v.(*ssa.Alloc); ok && isNamed(al.Type(), "io", "LimitedReader") && al.Referrers() != nil {
+		for _, ref := range *al.Referrers() {
+			if fa, ok := ref.(*ssa.FieldAddr); ok {
+				if fv := fieldVar(fa.X.Type(), fa.Field); fv != nil && fv.Name() == "R" {
+					for _, st := range storesTo(fa) {
+						return st.Val, true
+					}
+				}
+			}
+		}
+	}
+	return nil, false
+}
+
+// streamFullyConsumedEdges: edges establishing N == 0 on the io.LimitedReader handed to SumStream.
+func streamFullyConsumedEdges(fn *ssa.Function) []Edge {
+	return cmpEdges(fn, func(v ssa.Value) bool {
+		fv, base := fieldOfLoad(canon(v))
+		return fv != nil && fv.Name() == "N" && isNamed(base.Type(), "io", "LimitedReader")
+	}, func(v ssa.Value) bool { k, ok := constInt(v); return ok && k == 0 }, "eq")
 }
 
 // ---- R02b -------------------------------------------------------------------------------------------
